@@ -14,7 +14,7 @@ import types
 import z3
 
 from .values import (Sym, PObj, PList, PDict, PSet, DictView, JsonText, BoundMethod, BuiltinMethod, Closure,
-                     SuperProxy, Foreign, Opaque, Unsupported, V, mk, kind_of, is_sym, z3_of, to_U, py_eq_scalar,
+                     SuperProxy, Foreign, Opaque, Unsupported, AnyVal, LockVal, V, mk, kind_of, is_sym, z3_of, to_U, py_eq_scalar,
                      truthy_scalar, sym_not, sym_and, sym_or, as_z3_bool, ite_value, NUM, u_is_num, u_numval)
 
 _MODELS = {}
@@ -63,6 +63,11 @@ def m_len(I, args, kw):
 
 
 def length(I, v):
+    if isinstance(v, AnyVal):
+        I.any_op(f'len({v.label})', result=False)
+        n = I.ctx.fresh('anylen', 'int')
+        I.ctx.assume(n.t >= 0)
+        return n
     if isinstance(v, (PList, PSet)):
         return len(v.items)
     if isinstance(v, tuple):
@@ -180,6 +185,8 @@ def m_id(I, args, kw):
 def m_list(I, args, kw):
     if not args:
         return PList()
+    if isinstance(args[0], AnyVal):
+        return I.any_op(f'list({args[0].label})')
     return PList(list(I.iterate(args[0])))
 
 
@@ -526,7 +533,31 @@ def sort_concrete(I, items):
 
 
 # =========================================================================================== methods
+def lock_method(I, lk, name, args, kw):
+    if name == 'acquire':
+        lk.trace.append('acquire')
+        if lk.held:
+            lk.errors.append('acquire while already held by this call (blocks forever)')
+            raise Unsupported('deadlock: acquire of a lock this call already holds')
+        lk.held = True
+        lk.acquires += 1
+        return True
+    if name == 'release':
+        lk.trace.append('release')
+        if not lk.held:
+            lk.errors.append('release of an unlocked lock')
+            I.raise_(RuntimeError, 'release unlocked lock')
+        lk.held = False
+        lk.releases += 1
+        return None
+    if name == 'locked':
+        return lk.held
+    raise Unsupported(f'Lock.{name}')
+
+
 def builtin_method(I, recv, name, args, kw):
+    if isinstance(recv, LockVal):
+        return lock_method(I, recv, name, args, kw)
     if isinstance(recv, PObj):
         return object_method(I, recv, name, args, kw)
     if isinstance(recv, PDict):
@@ -914,6 +945,8 @@ def format_value(I, v, conversion, spec):
 
 # ------------------------------------------------------------------------------------------- containers
 def getitem(I, c, k):
+    if isinstance(c, AnyVal):
+        return I.any_op(f'{c.label}[...]')
     if isinstance(c, PDict):
         k = I._key(k, c)
         if I.ctx.guards and k in c.e and c.e[k][0] is not True:
@@ -996,6 +1029,9 @@ def getslice(I, c, lo, hi, st):
 
 
 def setitem(I, c, k, v):
+    if isinstance(c, AnyVal):
+        I.any_op(f'{c.label}[...]=', result=False)
+        return
     if isinstance(c, PDict):
         return I.dict_set(c, k, v)
     if isinstance(c, PList):
@@ -1038,6 +1074,9 @@ def delitem(I, c, k):
 
 
 def contains(I, c, x):
+    if isinstance(c, AnyVal):
+        I.any_op(f'in {c.label}', result=False)
+        return I.ctx.fresh('anybool', 'bool')
     if isinstance(c, PDict):
         if is_sym(x) or any(is_sym(kk) for kk in c.e):
             return sym_or(*[sym_and(I.py_eq(x, kk), True if c.e[kk][0] is True else Sym(c.e[kk][0], 'bool')) for kk in c.e])
